@@ -11,15 +11,17 @@ import (
 
 // Env evaluates contract expressions to SMT terms in a symbolic state.
 type Env struct {
-	fc     *FnCtx
-	pkg    string
-	vars   map[string]CVal
-	st     *State
-	old    *State
-	lookup func(name string) (CVal, bool)
-	fr     *frame
-	bound  map[string]CVal
-	inOld  bool
+	fc      *FnCtx
+	pkg     string
+	vars    map[string]CVal
+	st      *State
+	old     *State
+	lookup  func(name string) (CVal, bool)
+	fr      *frame
+	bound   map[string]CVal
+	inOld   bool
+	entry   *State // state at loop entry (for atentry(e) in loop invariants)
+	inEntry bool
 }
 
 func (fc *FnCtx) contractEnv(c *FuncContract, fn *ssa.Function, args []Val, st, old *State) *Env {
@@ -73,6 +75,9 @@ func (env *Env) evalBool(e Expr) (Term, error) {
 func (env *Env) state() *State {
 	if env.inOld {
 		return env.old
+	}
+	if env.inEntry && env.entry != nil {
+		return env.entry
 	}
 	return env.st
 }
@@ -486,6 +491,18 @@ func (env *Env) call(x *ECall) (CVal, error) {
 		v, err := env.eval(x.Args[0])
 		env.inOld = saved
 		return v, err
+	case "atentry":
+		if len(x.Args) != 1 {
+			return CVal{}, fmt.Errorf("atentry takes one argument")
+		}
+		if env.entry == nil {
+			return CVal{}, fmt.Errorf("atentry outside a loop invariant")
+		}
+		saved := env.inEntry
+		env.inEntry = true
+		v, err := env.eval(x.Args[0])
+		env.inEntry = saved
+		return v, err
 	case "len":
 		args, err := evalArgs()
 		if err != nil {
@@ -634,28 +651,42 @@ func (env *Env) call(x *ECall) (CVal, error) {
 		for _, a := range args {
 			as = append(as, a.T.S)
 		}
+		if smtName.args != nil {
+			fc.declareFun(smtName.name, smtName.args, smtName.sort)
+		}
 		return CVal{Term{"(" + smtName.name + " " + strings.Join(as, " ") + ")", smtName.sort}, nil}, nil
 	}
 	return CVal{}, fmt.Errorf("unknown function %s", x.Fn)
 }
 
-type smtB struct{ name, sort string }
+type smtB struct {
+	name, sort string
+	args       []string // non-nil: uninterpreted library symbol that must be declared
+}
 
 var smtBuiltins = map[string]smtB{
-	"str_contains": {"str.contains", SBool},
-	"str_prefixof": {"str.prefixof", SBool},
-	"str_suffixof": {"str.suffixof", SBool},
-	"str_indexof":  {"str.indexof", SInt},
-	"str_substr":   {"str.substr", SString},
-	"str_at":       {"str.at", SString},
-	"str_code":     {"str.to_code", SInt},
-	"str_from_code": {"str.from_code", SString},
-	"str_replace":  {"str.replace", SString},
-	"tinst":        {"tinst", SInt},
-	"tzone":        {"tzone", SInt},
-	"mktime":       {"mktime", STime},
-	"abs":          {"abs", SInt},
-	"atag":         {"atag", SInt},
+	"str_contains":  {"str.contains", SBool, nil},
+	"str_prefixof":  {"str.prefixof", SBool, nil},
+	"str_suffixof":  {"str.suffixof", SBool, nil},
+	"str_indexof":   {"str.indexof", SInt, nil},
+	"str_substr":    {"str.substr", SString, nil},
+	"str_at":        {"str.at", SString, nil},
+	"str_code":      {"str.to_code", SInt, nil},
+	"str_from_code": {"str.from_code", SString, nil},
+	"str_replace":   {"str.replace", SString, nil},
+	"tinst":         {"tinst", SInt, nil},
+	"tzone":         {"tzone", SInt, nil},
+	"mktime":        {"mktime", STime, nil},
+	"abs":           {"abs", SInt, nil},
+	"atag":          {"atag", SInt, nil},
+	// symbols of the library models (lib.go)
+	"isLetter":  {"uni$letter", SBool, []string{SInt}},
+	"isDigit":   {"uni$digit", SBool, []string{SInt}},
+	"isSpace":   {"uni$space", SBool, []string{SInt}},
+	"utf8rune":  {"utf8$rune", SInt, []string{SString}},
+	"utf8width": {"utf8$width", SInt, []string{SString}},
+	"foldcase":  {"str$fold", SString, []string{SString}},
+	"lowercase": {"str$lower", SString, []string{SString}},
 }
 
 func (env *Env) callSpec(sf *SpecFunc, args []CVal) (CVal, error) {
